@@ -130,6 +130,12 @@ Definition obtain (c : cfg) (g : list contig) (sched : list nat) : result :=
   | [] => Ok []
   end.
 
+(* a session: the same path counted repeatedly, possibly rewritten in between.  Each call opens the file that is on
+   disk at that moment (get_contig_sizes and count_fragments_binned both open the path anew), so a history is the
+   map of [obtain] over the (parameters, current BAM content, schedule) of each call: no state is carried over *)
+Definition run_history (h : list (cfg * list contig * list nat)) : list result :=
+  map (fun x => let '(c, g, sched) := x in obtain c g sched) h.
+
 Definition total1 (d : sdict) : Z := fold_right (fun p acc => snd p + acc) 0 d.
 Definition total (c : dict2) : Z := fold_right (fun e acc => total1 (snd e) + acc) 0 c.
 
@@ -233,5 +239,9 @@ Definition run_C12 (mode : Z) (v : Val) : Val :=
   | 6 => (* D15: [fs; bin_size; regions; reads = (lo hi site)] *)
       VL (map ofPair (region_counts (getZ (nthV 0 v)) (getZ (nthV 1 v)) (map getPair (getL (nthV 2 v)))
                                     (map (fun t => (getZ (nthV 0 t), getZ (nthV 1 t), getZ (nthV 2 t))) (getL (nthV 3 v)))))
+  | 7 => (* history: list of [cfg; genome; schedule] -> list of results *)
+      VL (map (fun r => match r with Ok d => VL [VZ 0; enc_dict d] | Raise e => VL [VZ e] end)
+              (run_history (map (fun x => (dec_cfg (nthV 0 x), map dec_contig (getL (nthV 1 x)),
+                                           map Z.to_nat (getZs (nthV 2 x)))) (getL v))))
   | _ => bad
   end.
